@@ -138,6 +138,18 @@ type rcThread struct {
 
 var rcSeq atomic.Int64
 
+// rcHungCases counts cases that ran into a watchdog.  On a correct tree it stays 0.  After a few the
+// verdict of the run is settled and the remaining cases get a short watchdog (a leaked token would
+// otherwise cost twenty seconds in each of hundreds of cases).
+var rcHungCases atomic.Int32
+
+func rcWatch() time.Duration {
+	if rcHungCases.Load() >= 4 {
+		return 100 * time.Millisecond
+	}
+	return 5 * time.Second
+}
+
 func (t *rcThread) perturb() {
 	switch t.rng.Intn(6) {
 	case 0:
@@ -311,7 +323,7 @@ func execReactorConc(in string) Result {
 	hung := false
 	pdone := make(chan struct{})
 	go func() { pwg.Wait(); close(pdone) }()
-	deadline := time.After(10 * time.Second)
+	deadline := time.After(2 * rcWatch())
 	select {
 	case <-pdone:
 	case <-deadline:
@@ -337,7 +349,7 @@ func execReactorConc(in string) Result {
 	go func() { cwg.Wait(); close(cdone) }()
 	select {
 	case <-cdone:
-	case <-time.After(5 * time.Second):
+	case <-time.After(rcWatch()):
 		hung = true
 	}
 	// A badly behaved client, many rounds: a fresh seed is inserted and received, then one goroutine
@@ -355,7 +367,7 @@ func execReactorConc(in string) Result {
 				delivs = append(delivs, deliv{rcSeq.Add(1), ta.tid, rid})
 				mu.Unlock()
 				return true
-			case <-time.After(5 * time.Second):
+			case <-time.After(rcWatch()):
 				return false
 			}
 		}
@@ -370,7 +382,7 @@ func execReactorConc(in string) Result {
 				if res != "ROk" {
 					hung = true // every token is taken although nothing is in flight: left to the accounting monitors
 				}
-			case <-time.After(5 * time.Second):
+			case <-time.After(rcWatch()):
 				hung = true
 			}
 			if hung || !recv() {
@@ -404,7 +416,7 @@ func execReactorConc(in string) Result {
 				select {
 				case fres = <-fr:
 				case bres = <-br:
-				case <-time.After(5 * time.Second):
+				case <-time.After(rcWatch()):
 					hung = true
 				}
 			}
@@ -430,14 +442,14 @@ func execReactorConc(in string) Result {
 	go func() { reactor.Stop(); close(sdone) }()
 	select {
 	case <-sdone:
-	case <-time.After(5 * time.Second):
+	case <-time.After(rcWatch()):
 		hung = true
 	}
 	if hung {
 		// blocked goroutines may still append to their logs: give them a moment, then read what is there
 		select {
 		case <-pdone:
-		case <-time.After(2 * time.Second):
+		case <-time.After(rcWatch() / 2):
 		}
 	}
 	var after []string
@@ -510,6 +522,7 @@ func execReactorConc(in string) Result {
 	}
 	if hung {
 		tags = append(tags, "hung")
+		rcHungCases.Add(1)
 	}
 	switch n := len(evs) / 2; {
 	case n <= 8:
